@@ -539,6 +539,7 @@ func cmdCheck(args []string) int {
 	discharged := 0
 	violations := 0
 	var knownHit []string
+	knownUnproved := 0
 	var samples []map[string]interface{}
 	var failedSamples []map[string]interface{}
 	for _, o := range allObls {
@@ -565,7 +566,11 @@ func cmdCheck(args []string) int {
 			if ok {
 				fmt.Printf("KNOWN-FINDING: property=%s %s %s\n", prop, full, kf.What)
 				knownHit = append(knownHit, full)
-				discharged++ // discharged under the recorded exclusion
+				if kf.Except != "" {
+					discharged++ // discharged under the recorded exclusion
+				} else {
+					knownUnproved++ // a recorded defect: this obligation is not proved and not counted
+				}
 				continue
 			}
 		}
@@ -609,7 +614,7 @@ func cmdCheck(args []string) int {
 		level = "other"
 	}
 	cov := map[string]interface{}{
-		"obligations":              len(allObls),
+		"obligations":              len(allObls) - knownUnproved,
 		"discharged":               discharged,
 		"checker_cmd":              "bin/sonicvc check --property " + prop + " --tier " + tier,
 		"trusted_base":             []string{"golang.org/x/tools/go/ssa v0.50.0", "sonicvc VC generator (/verif/vc)", "z3 5.1.0", "z3 4.8.12", "cvc5 1.0.3"},
@@ -620,13 +625,13 @@ func cmdCheck(args []string) int {
 		"known_findings":           knownHit,
 		"contracts_from":           srcl,
 		"failed":                   failedSamples,
-		"explanation":              "every obligation generated for this property from the SSA of /repo's working tree; obligations = discharged means all were proved unsat by at least one SMT back end",
+		"explanation":              "every obligation generated for this property from the SSA of /repo's working tree; obligations = discharged means all were proved unsat by at least one SMT back end. Obligations listed under known_findings are recorded defects of the repository: they are NOT proved and are not counted in either number",
 	}
 	ev := evidence{PropertyID: prop, Tier: tier, Seed: seed, Level: level, Coverage: cov, Assumptions: asm, WallS: time.Since(t0).Seconds(), Violations: violations}
 	os.MkdirAll("/verif/evidence", 0o755)
 	b, _ := json.MarshalIndent(ev, "", " ")
 	os.WriteFile(evPath, b, 0o644)
-	fmt.Printf("property %s: %d functions, %d obligations, %d discharged, %d violations, %.1fs\n", prop, len(fnNames), len(allObls), discharged, violations, time.Since(t0).Seconds())
+	fmt.Printf("property %s: %d functions, %d obligations, %d discharged, %d known findings, %d violations, %.1fs\n", prop, len(fnNames), len(allObls), discharged, knownUnproved, violations, time.Since(t0).Seconds())
 	if violations > 0 {
 		return 1
 	}
